@@ -860,7 +860,7 @@ fn calibrate() {
 pub fn plan(args: &Args) -> Plan<'_> {
     let us = units(args);
     let us2 = us.clone();
-    let maxlen = if args.thorough() { 4 } else { 3 };
+    let maxlen = if args.thorough() { 5 } else { 4 };
     let lens = lengths(args);
     let mut calibrated = false;
     Plan {
